@@ -2492,6 +2492,12 @@ impl Connection {
                 return Ok(());
             }
             State::Closed(_) => {
+                if !packet.header.has_frames() {
+                    // Retry and Version Negotiation packets are not authenticated and carry no
+                    // frames: their payload must not be interpreted as a CONNECTION_CLOSE
+                    trace!("discarding unexpected unprotected packet");
+                    return Ok(());
+                }
                 for result in frame::Iter::new(packet.payload.freeze())? {
                     let frame = match result {
                         Ok(frame) => frame,
